@@ -470,8 +470,9 @@ func vInfixShape(op pAst.InfixOperator) int {
 @*/
 
 /*@ func (self *Compiler) compileExprInner
+    assert @a-cast-expression-lowers-to-a-converting-cast after self.insert(newCastInstruction(node.AsType, true), node.Range) :: self.emitted(0).Opcode() == Opcode_Cast && self.emitted(0).(CastInstruction).Type == node.AsType && self.emitted(0).(CastInstruction).AllowCast
     assert @list-literal-starts-from-a-fresh-list before for _, element := range node.Values { :: self.emitted(0).Opcode() == Opcode_Cloning_Push
-    serves C01, C02, C09, C11, C15
+    serves C01, C02, C09, C11, C15, C12
     split node.Kind() in 0..24
     splitcond at 16 :: node.(ast.AnalyzedAssignExpression).Lhs.Kind() == ast.IdentExpressionKind
     splitcond at 16 :: node.(ast.AnalyzedAssignExpression).Operator != pAst.StdAssignOperatorKind
@@ -500,9 +501,10 @@ func vInfixShape(op pAst.InfixOperator) int {
 
 
 /*@ func (self *Compiler) compileLetStmt
+    assert @a-dynamic-initialiser-is-validated-against-the-annotation after if node.NeedsRuntimeTypeValidation { :: node.NeedsRuntimeTypeValidation ==> self.emitted(0).Opcode() == Opcode_Cast && self.emitted(0).(CastInstruction).Type == node.OptType && !self.emitted(0).(CastInstruction).AllowCast
     assert @initialiser-leaves-a-value after self.compileExpr(node.Expression) :: ghost(depth) == old(ghost(depth)) + 1
     ensures @stack-effect ghost(depth) == old(ghost(depth))
-    serves C01, C15, C02, C09
+    serves C01, C15, C02, C09, C12
     assume-safety
     requires self.scopesWF() && self.aligned()
     ensures @scope-stack-balanced self.scopesWF() && len(self.varScopes) == old(len(self.varScopes)) && forall i in 0..len(self.varScopes) :: samemap(self.varScopes[i], old(self.varScopes[i]))
